@@ -165,3 +165,24 @@ Theorem C10_tree_long_lines_instance :
   pw_lines 0 (reflow 31 t) = [ (4, [ $"consectetur"; $"adipiscing"; $"elit" ]) ] /\ pw_lines 0 (reflow 30 t) = [ (4, [ $"consectetur"; $"adipiscing" ]); (4, [ $"elit" ]) ].
 Proof. vm_compute. repeat split; reflexivity. Qed.
 Print Assumptions C10_tree_long_lines_instance.
+
+(* The same trees under MarkdownRenderer(max_line_length=L, normalize_whitespace=True): the renderer writes norm t - every list marker
+   followed by ONE space, whatever padding the source had - reflowed under the budgets that leaves; that tree is in the fragment again,
+   and its HTML is the original's up to line endings exchanged for spaces (the padding of a marker is not seen in the HTML) *)
+Theorem C10_tree_reflow_normalized : forall o L t, wwf t = true ->
+  block_lines (mkMopts true) (Some L) (tok_of true (to_f t)) = map bare (spell (to_f (reflow L (norm t)))) /\
+  wwf (reflow L (norm t)) = true /\ wf_b (to_f (reflow L (norm t))) = true /\
+  unl (html_f o false (to_f (reflow L (norm t)))) = unl (html_f o false (to_f t)).
+Proof.
+  intros o L t H. destruct (reflow_renders_normalized L t H) as (A & B & C). repeat split; try assumption. apply normalized_same_html. exact H.
+Qed.
+Print Assumptions C10_tree_reflow_normalized.
+
+Theorem C10_tree_reflow_normalized_instance :
+  let t := WItem (MOrdered $"12" 41) 3 [WPara [[ $"consectetur"; $"adipiscing" ]; [ $"elit" ]]; WQuote [WItem (MBullet 42) 4 [WPara [[ $"sed"; $"do"; $"eiusmod" ]]]]] in
+  wwf t = true /\
+  text_of (spell (to_f t)) = [ $"12)   consectetur adipiscing" ++ [10]; $"      elit" ++ [10]; [10]; $"      > *    sed do eiusmod" ++ [10] ] /\
+  text_of (spell (to_f (reflow 16 (norm t)))) =
+    [ $"12) consectetur" ++ [10]; $"    adipiscing" ++ [10]; $"    elit" ++ [10]; [10]; $"    > * sed do" ++ [10]; $"    >   eiusmod" ++ [10] ].
+Proof. vm_compute. repeat split; reflexivity. Qed.
+Print Assumptions C10_tree_reflow_normalized_instance.
